@@ -6,7 +6,9 @@ package main
 import (
 	"go/ast"
 	"go/constant"
+	"go/token"
 	"go/types"
+	"strconv"
 	"strings"
 )
 
@@ -104,8 +106,8 @@ func kindProvenance(w *World, r *Result, rule, fn string, minSites int) int {
 	marker := regexpMust(`(?i)(['"]?kind['"]?\s*[:=]+\s*|case\s+|WHEN data->>'Kind' = ')['"]?$`)
 	n := 0
 	ast.Inspect(fi.Decl.Body, func(x ast.Node) bool {
-		call, ok := x.(*ast.CallExpr)
-		if !ok || !isSprintf(info, &call) {
+		call := sprintfView(info, x)
+		if call == nil {
 			return true
 		}
 		format, vas := verbArgs(info, call)
@@ -195,4 +197,124 @@ func isSprintf(info *types.Info, pc **ast.CallExpr) bool {
 		return true
 	}
 	return false
+}
+
+// ---------- one view of "text built from a constant frame and holes" ----------
+
+var (
+	sprintfFunc  *types.Func                   // fmt.Sprintf, found in the import graph at load time
+	concatViews  = map[ast.Node]*ast.CallExpr{} // outermost concatenation -> its Sprintf-shaped view
+	concatInners = map[ast.Node]bool{}          // concatenations already covered by an outer one
+)
+
+func initSprintf(w *World) {
+	for _, p := range w.Pkgs {
+		for _, imp := range p.Types.Imports() {
+			if imp.Path() == "fmt" {
+				if f, ok := imp.Scope().Lookup("Sprintf").(*types.Func); ok {
+					sprintfFunc = f
+					return
+				}
+			}
+		}
+	}
+}
+
+// sprintfView presents x as a call shaped like fmt.Sprintf(format, args…) when x builds text from a constant frame:
+// fmt.Sprintf itself; fmt.Fprintf into a strings.Builder / bytes.Buffer (isSprintf); or an outermost string
+// concatenation, whose literal operands become the format and whose other operands become holes (strconv.Itoa(i) and
+// integer FormatInt as %d, strconv.Quote(s) as %q, a nested Sprintf inlined, anything else %s). The view of a
+// concatenation is a synthetic call registered in info (Uses, Types), so every rule written for Sprintf reads it
+// unchanged. Inner concatenations of one that was already presented return nil (no double counting: ast.Inspect
+// reaches the outermost first).
+func sprintfView(info *types.Info, x ast.Node) *ast.CallExpr {
+	switch v := x.(type) {
+	case *ast.CallExpr:
+		c := v
+		if isSprintf(info, &c) {
+			return c
+		}
+		return nil
+	case *ast.BinaryExpr:
+		if v.Op != token.ADD || concatInners[v] || sprintfFunc == nil {
+			return nil
+		}
+		if c, ok := concatViews[v]; ok {
+			return c
+		}
+		t := info.TypeOf(v)
+		if t == nil {
+			return nil
+		}
+		if b, ok := t.Underlying().(*types.Basic); !ok || b.Info()&types.IsString == 0 {
+			return nil
+		}
+		if tv := info.Types[v]; tv.Value != nil {
+			return nil // a constant expression: plain text, no hole
+		}
+		var format strings.Builder
+		var args []ast.Expr
+		okAll := true
+		var flat func(e ast.Expr)
+		flat = func(e ast.Expr) {
+			e = ast.Unparen(e)
+			if tv := info.Types[e]; tv.Value != nil && tv.Value.Kind() == constant.String {
+				format.WriteString(strings.ReplaceAll(constant.StringVal(tv.Value), "%", "%%"))
+				return
+			}
+			if be, ok := e.(*ast.BinaryExpr); ok && be.Op == token.ADD {
+				concatInners[be] = true
+				flat(be.X)
+				flat(be.Y)
+				return
+			}
+			if call, ok := e.(*ast.CallExpr); ok {
+				switch fullName(calleeOf(info, call)) {
+				case "strconv.Itoa":
+					format.WriteString("%d")
+					args = append(args, call.Args[0])
+					return
+				case "strconv.FormatInt":
+					if k, isK := constInt(info, call.Args[1]); isK && k == 10 {
+						format.WriteString("%d")
+						a := ast.Unparen(call.Args[0])
+						if conv, ok := a.(*ast.CallExpr); ok && len(conv.Args) == 1 {
+							if tv, ok := info.Types[conv.Fun]; ok && tv.IsType() {
+								a = conv.Args[0]
+							}
+						}
+						args = append(args, a)
+						return
+					}
+				case "strconv.Quote":
+					format.WriteString("%q")
+					args = append(args, call.Args[0])
+					return
+				case "fmt.Sprintf":
+					if tv := info.Types[call.Args[0]]; tv.Value != nil && tv.Value.Kind() == constant.String && !strings.Contains(constant.StringVal(tv.Value), "%[") {
+						format.WriteString(constant.StringVal(tv.Value))
+						args = append(args, call.Args[1:]...)
+						return
+					}
+				}
+			}
+			format.WriteString("%s")
+			args = append(args, e)
+		}
+		concatInners[v] = false
+		flat(v.X)
+		flat(v.Y)
+		if !okAll {
+			return nil
+		}
+		lit := &ast.BasicLit{ValuePos: v.Pos(), Kind: token.STRING, Value: strconv.Quote(format.String())}
+		info.Types[lit] = types.TypeAndValue{Type: types.Typ[types.String], Value: constant.MakeString(format.String())}
+		sel := &ast.Ident{NamePos: v.Pos(), Name: "Sprintf"}
+		info.Uses[sel] = sprintfFunc
+		fun := &ast.SelectorExpr{X: &ast.Ident{NamePos: v.Pos(), Name: "fmt"}, Sel: sel}
+		c := &ast.CallExpr{Fun: fun, Lparen: v.Pos(), Args: append([]ast.Expr{lit}, args...), Rparen: v.End() - 1}
+		concatViews[v] = c
+		return c
+	}
+	return nil
 }
